@@ -43,6 +43,8 @@ let save_keys (n : string) (before : state) (after : state) : string =
   let atomic = crash_atomic_chk (restart before.disk) before.mem imgs in
   (* y: the settings file at the moment Synchronize() returns = after the complete script *)
   let at_return = match fs_run fs_step script before.disk with Some d -> file_s d.f_conf | None -> "?hazard" in
+  (* d: descriptors open at quiescence relative to the start of the case: what the script leaves open *)
+  Printf.sprintf ";d%s=%d" n (int_of_z (fd_balance script Z0)) ^
   if big before.mem then
     Printf.sprintf ";y%s=%s;f%s=%s;t%s=%s;a%s=%s" n at_return n (file_s after.disk.f_conf) n (file_s after.disk.f_tmp) n (bool01 atomic)
   else
@@ -152,8 +154,20 @@ let handle (payload : string) : string =
       let atomic = crash_atomic_chk (restart !st.disk) !st.mem imgs in
       let d = match fs_run fs_step script !st.disk with Some d -> d | None -> failwith "fs-hazard" in
       st := { !st with disk = d };
-      emit (Printf.sprintf "s%s=%s;y%s=%s;f%s=%s;t%s=%s;a%s=%s" n (dump !st.mem) n (file_s d.f_conf) n (file_s d.f_conf)
-              n (file_s d.f_tmp) n (bool01 atomic))
+      emit (Printf.sprintf "s%s=%s;d%s=%d;y%s=%s;f%s=%s;t%s=%s;a%s=%s" n (dump !st.mem) n (int_of_z (fd_balance script Z0))
+              n (file_s d.f_conf) n (file_s d.f_conf) n (file_s d.f_tmp) n (bool01 atomic))
+    | ["Q"; rounds; k] ->
+      (* many saves through the long-lived saver thread: every one leaves the file = the store and no
+         descriptor behind (c18_repeated_saves) *)
+      let rounds = ios rounds and k = bytes_of_hex k in
+      cls (if rounds >= 100 then "repeat>=100" else "repeat<100");
+      let held = ref Z0 in
+      for j = 1 to rounds do
+        st := step !st (OSet (k, str_of_string ("round-" ^ string_of_int j)));
+        held := fd_balance (save_script !st.mem) !held;
+        st := step !st OSave
+      done;
+      emit (Printf.sprintf "s%s=%s;q%s=0;d%s=%d;y%s=%s" n (dump !st.mem) n n (int_of_z !held) n (file_s !st.disk.f_conf))
     | ["W"; k] ->
       let k = ios k in
       let script = save_script_enospc !st.mem (nat_of_int k) in
@@ -164,8 +178,8 @@ let handle (payload : string) : string =
       let atomic = crash_atomic_chk (restart !st.disk) !st.mem imgs in
       let d = match fs_run fs_step script !st.disk with Some d -> d | None -> failwith "fs-hazard" in
       st := { !st with disk = d };
-      emit (Printf.sprintf "s%s=%s;y%s=%s;f%s=%s;t%s=%s;a%s=%s" n (dump !st.mem) n (file_s d.f_conf) n (file_s d.f_conf)
-              n (file_s d.f_tmp) n (bool01 atomic))
+      emit (Printf.sprintf "s%s=%s;d%s=%d;y%s=%s;f%s=%s;t%s=%s;a%s=%s" n (dump !st.mem) n (int_of_z (fd_balance script Z0))
+              n (file_s d.f_conf) n (file_s d.f_conf) n (file_s d.f_tmp) n (bool01 atomic))
     | ["X"; k] ->
       let before = !st in
       let total = List.length (save_script before.mem) in
